@@ -621,7 +621,7 @@ fn expand_regex_assertion(value_expr: &TokenStream, pattern: &PatternRegex) -> T
             use ::assert_struct::Like;
             let re = ::assert_struct::__macro_support::Regex::new(#pattern_str)
                 .expect(concat!("Invalid regex pattern: ", #pattern_str));
-            if !#value_expr.like(&re) {
+            if !(#value_expr).like(&re) {
                 #error_push
             }
         }
@@ -641,7 +641,7 @@ fn expand_like_assertion(value_expr: &TokenStream, pattern: &PatternLike) -> Tok
     quote_spanned! {span=>
         {
             use ::assert_struct::Like;
-            if !#value_expr.like(&#pattern_expr) {
+            if !(#value_expr).like(&#pattern_expr) {
                 #error_push
             }
         }
